@@ -47,6 +47,12 @@ def run_property(prop, tier, seed):
     from . import props
     t0 = time.time()
     spec = props.PROPS[prop]
+    # replay files are rewritten by every run
+    rd = os.path.join(VERIF, 'replays')
+    if os.path.isdir(rd):
+        for fn in os.listdir(rd):
+            if fn.startswith(prop + '_'):
+                os.remove(os.path.join(rd, fn))
     unit_names = list(spec.get('verus', []))
     if tier == 'thorough':
         unit_names += [u for u in spec.get('verus_thorough', []) if u not in unit_names]
